@@ -21,6 +21,33 @@ CHECKS = {
         "nan/inf and non major.minor[.patch] version strings are not generated.",
    technique="TLC model checking of Valid.tla + TLC validation of recorded implementation verdicts (ValidTrace.tla)"),
 }
+
+GW_NOTE = ("Trusts TLC, the projector harness/gwdrv.py (reads attributes only), the payload lexer, and the hand-written "
+           "Valid.tla tables used inside the trace spec. Bounded: focus alphabets of ~15-25 concrete lines to depth 4-8; "
+           "random histories of 40 steps; one concrete representative per payload class.")
+def gw(pid, design, text):
+    return dict(level="model_checking", design=design, text=text, note=GW_NOTE,
+                technique="TLC model checking of Gateway.tla (GatewayMC.tla focus runs) + replay of TLC behaviours into the real "
+                          "Gateway + TLC trace validation of recorded executions (GatewayTrace.tla)")
+CHECKS.update({
+ "C04": gw("C04", "5 C04", "Gateway.tla models every handler; TLC checks tree discipline, first-presentation-wins, last-writer-wins and "
+        "exactly-one-callback-per-change on focus models (3 versions x 2 flavours). TLC-generated behaviours and random histories "
+        "are run against the real gateway; after every step the full node/child/value tree and the callback log (taken from "
+        "inside the callback, also with a raising callback) must equal the specification's successor state."),
+ "C05": gw("C05", "5 C05", "Reply table of Gateway.tla (req/config/time/id/gateway-ready/presentation request/silence); TLC checks that every "
+        "emitted, held or queued command is valid under Valid.tla and addressed to the requester or broadcast. In traces every "
+        "string handed to transport.send is parsed by an independent reference decoder, must be canonical, must equal the "
+        "specification's output sequence for that step and must re-validate under Valid.tla."),
+ "C07": gw("C07", "5 C07", "Routing / hold queue / wake-up burst are explicit in Gateway.tla; TLC checks QuietWhileAsleep and BurstShape over all "
+        "interleavings of the focus alphabet (2.0-2.2, both flavours, OTA stream exception). Traces compare the ordered transport "
+        "log, the job queue, per-node hold queues and desired maps after every step."),
+ "C08": gw("C08", "5 C08", "Wake(n) = hold queue FIFO then one set per reported+desired value type; TLC checks BurstShape, ConfirmedNeverResent and "
+        "AcceptedImpliesDeliverable (desired values valid for the gateway's tables) incl. nodes presenting older / unusable versions. "
+        "Traces compare burst order, desired maps, hold queues and the refusal (exception) of set_child_value."),
+ "C10": gw("C10", "5 C10", "OTA session automaton (requested -> unstarted -> started) in Gateway.tla; TLC checks only-scheduled-served, config withheld "
+        "after fetch started, restart by update call, malformed requests ignored, reboot until presented. Traces compare the three "
+        "session stores, the reboot flags and every stream / reboot reply."),
+})
 NA = {}
 def main():
     props = [json.loads(l)["id"] for l in open(os.path.join(HERE, "properties.jsonl"))]
